@@ -115,6 +115,16 @@ MUT = {
         ('G14', 'profile type mapped to another base type (profile_gen.go: profile.File → basetype.Uint8)', 'ptbase'),
         ('G16', 'a type constant renamed in String() only (typedef.Activity: "manual" → "Manual")',
          sub('profile/typedef/activity_gen.go', 'case ActivityManual:\n\t\treturn "manual"', 'case ActivityManual:\n\t\treturn "Manual"')),
+        ('G17', 'version_gen.go: the doc comment names another version than the constant (v21.158 → v21.159 in the comment only)',
+         sub('profile/version_gen.go', 'profile version, v21.158,', 'profile version, v21.159,')),
+        ('G18', 'one untyped message number edited (mesgnum.SkinTempOvernight = 399)',
+         sub('profile/untyped/mesgnum/mesgnum_gen.go', 'SkinTempOvernight           = 398', 'SkinTempOvernight           = 399')),
+        ('G19', 'profile_gen.go: String() of one profile type renamed (profile.Sint8 → "int8"), FromString untouched',
+         sub('profile/profile_gen.go', 'case Sint8:\n\t\treturn "sint8"', 'case Sint8:\n\t\treturn "int8"')),
+        ('G20', 'typedef template changed without regeneration (shared/constant.tmpl: doc comment of FromString reworded)', 'tmpl-typedef'),
+        ('G21', 'untyped constant template changed without regeneration (shared/untyped_constant.tmpl)', 'tmpl-untyped'),
+        ('G22', 'factory template changed without regeneration (factory.tmpl)', 'tmpl-factory'),
+        ('G23', 'profile template changed without regeneration (profile.tmpl)', 'tmpl-profile'),
         ('G15', 'units string of one field edited (record.heart_rate "bpm" → "BPM")',
          sub(FAC, '3: {Name: "heart_rate", Num: 3, Type: profile.Uint8, BaseType: basetype.Uint8, Scale: 1, Units: "bpm"},', '3: {Name: "heart_rate", Num: 3, Type: profile.Uint8, BaseType: basetype.Uint8, Scale: 1, Units: "BPM"},')),
     ],
@@ -145,6 +155,11 @@ def main(argv):
             edit = find_xlsx_edit()
         elif edit == 'ptbase':
             edit = find_ptbase_edit()
+        elif isinstance(edit, str) and edit.startswith('tmpl-'):
+            edit = tmpl_edit({'tmpl-typedef': 'internal/cmd/fitgen/shared/constant.tmpl',
+                              'tmpl-untyped': 'internal/cmd/fitgen/shared/untyped_constant.tmpl',
+                              'tmpl-factory': 'internal/cmd/fitgen/profile/factory/factory.tmpl',
+                              'tmpl-profile': 'internal/cmd/fitgen/profile/profile.tmpl'}[edit])
         try:
             edit()
         except AssertionError as e:
@@ -183,6 +198,22 @@ def find_xlsx_edit():
         if cur == 'record' and c.get('C') == 'altitude':
             return xlsx_cell(c['G'], '50', f'G{idx}')
     raise AssertionError('record.altitude not found')
+
+
+def tmpl_edit(path):
+    """reword the first Go comment line of a template that ends up in the generated code (a line starting with `// ` that
+    is not the licence header and not inside a template action)"""
+    def f():
+        p = os.path.join(WT, path)
+        lines = open(p).read().split('\n')
+        for i, l in enumerate(lines):
+            t = l.strip()
+            if re.match(r'// (FromString parse|[A-Z][A-Za-z]+ (handles|creates|returns|is|occurs|converts|registers)) ', t):
+                lines[i] = l + ' (reworded)'
+                open(p, 'w').write('\n'.join(lines))
+                return
+        raise AssertionError(f'{path}: no comment line found')
+    return f
 
 
 def find_ptbase_edit():
